@@ -27,8 +27,8 @@ LEVEL_TEXT = ("Props/C17.v: C17_valid - for every value, depth limit and script 
               "that order (the script is constructed: generator index for every randrange, permutation number for every shuffle), and C17_exhaustive_results - hence every nodelist a descendant segment may "
               "produce is produced; C17_loop_terminates; C17_frontier_sound; C17_valid_at / C17_exhaustive_at - both from any node of a value (relocation). Whole queries (the selectors' own shuffles, every segment, nested "
               "filters; every registry, every well-typed query): C17_query_valid - for every supply of scripts the nodelist find() returns is one RFC 9535 permits (nd_permitted); C17_query_same_nodes - it is a permutation of the "
-              "deterministic RFC nodelist; C17_query_exhaustive - every permitted nodelist is returned for some supply. For every small value the real code's complete outcome set equals the specification's, outcome by outcome equal to the model.")
-LEVEL_NOTE = "Trusted: Coq kernel; Spec/Nondet.v; Model/NdVisit.v tied script by script; chooser; extraction and driver."
+              "deterministic RFC nodelist; C17_query_exhaustive - every permitted nodelist is returned for some supply; C17_enumeration_exact - the enumeration compared with is that relation; C17_nested_independent / C17_full_valid / C17_full_exhaustive - the same with the random choices made by queries nested in filters modelled too (Model/NdEval2.v): they never change the result. For every small value the real code's complete outcome set equals the specification's, outcome by outcome equal to the model.")
+LEVEL_NOTE = "Trusted: Coq kernel; Spec/Nondet.v, Spec/NondetQ.v; Model/NdVisit.v, Model/NdEval.v, Model/NdEval2.v tied script by script (episodes attributed through the callers' frames); chooser; extraction and driver."
 norm_reply = harness.norm_reply
 
 
